@@ -155,7 +155,7 @@ fn find_body<const N: usize, const M: usize>(reach: bool) {
     let post = read::<M>(&p);
     assert!(post.n == pre.n, "C20.find.growth_exact");
     assert!(forest(&post), "C20.find.stays_a_forest");
-    assert!(inv(&post), "C20.INV.find_preserves_rank_invariant");
+    let inv_post = inv(&post);  // asserted last: a failed assertion cuts the path
     assert!(got == root(&pre, a), "C20.find.returns_root");
     assert!(post.parent[got] == got, "C20.find.result_is_root");
     // no representative moves, for any element (symbolic x)
@@ -166,6 +166,7 @@ fn find_body<const N: usize, const M: usize>(reach: bool) {
     let again = p.find(a);
     assert!(again == got, "C20.find.idempotent");
     assert!(p.find(got) == got, "C20.find.find_of_find");
+    assert!(inv_post, "C20.INV.find_preserves_rank_invariant");
     reach_end(reach);
     std::mem::forget(p);
 }
@@ -181,7 +182,7 @@ fn unite_body<const N: usize, const M: usize>(reach: bool) {
     let post = read::<M>(&p);
     assert!(post.n == pre.n, "C20.unite.growth_exact");
     assert!(forest(&post), "C20.unite.stays_a_forest");
-    assert!(inv(&post), "C20.INV.unite_preserves_rank_invariant");
+    let inv_post = inv(&post);  // asserted last: a failed assertion cuts the path
     let (ra, rb) = (root(&pre, a), root(&pre, b));
     let x: usize = vin();
     let y: usize = vin();
@@ -198,6 +199,7 @@ fn unite_body<const N: usize, const M: usize>(reach: bool) {
         let r = root(&post, x);
         assert!(r == ra || r == rb, "C20.unite.merged_root_is_old_root");
     }
+    assert!(inv_post, "C20.INV.unite_preserves_rank_invariant");
     reach_end(reach);
     std::mem::forget(p);
 }
@@ -211,7 +213,7 @@ fn clone_body<const N: usize, const M: usize, const ON_COPY: bool>(reach: bool) 
     let c0 = read::<M>(unsafe { &*copy._impl.get() });
     assert!(c0.n == pre.n, "C20.clone.same_size");
     assert!(forest(&c0), "C20.clone.is_a_forest");
-    assert!(inv(&c0), "C20.INV.clone_satisfies_rank_invariant");
+    let inv_c0 = inv(&c0);  // asserted last: a failed assertion cuts the path
     let x: usize = vin();
     let y: usize = vin();
     assume(x < N && y < N);
@@ -237,6 +239,7 @@ fn clone_body<const N: usize, const M: usize, const ON_COPY: bool>(reach: bool) 
             "C20.clone.own_unions_apply");
     // find through &self on the public wrapper agrees with the oracle
     assert!(orig.find(x) == root(&o1, x), "C20.wrapper.find");
+    assert!(inv_c0, "C20.INV.clone_satisfies_rank_invariant");
     reach_end(reach);
     std::mem::forget((orig, copy));
 }
@@ -251,7 +254,7 @@ fn new_body(reach: bool) {
     assert!(p.find(a) == a, "C20.new.singleton");
     let s1 = read::<2>(unsafe { &*p._impl.get() });
     assert!(s1.n == a + 1 && forest(&s1), "C20.new.growth");
-    assert!(inv(&s1), "C20.INV.growth_satisfies_rank_invariant");
+    assert!(inv(&s1), "C20.INV.growth_satisfies_rank_invariant");  // last assertion of the body
     reach_end(reach);
     std::mem::forget(p);
 }
@@ -264,15 +267,15 @@ macro_rules! proofs {
     )*};
 }
 
-// @harness c20_find_n3 tier=quick unwind=6 block=128 mem=29 timeout=3077
+// @harness c20_find_n3 tier=quick unwind=6 block=128 mem=39 timeout=3600
 // @harness c20_find_n3_reach tier=quick unwind=6 block=128 mem=26 timeout=1800 twin
-// @harness c20_unite_n3 tier=quick unwind=6 block=128 mem=15 timeout=2664
-// @harness c20_unite_n3_reach tier=quick unwind=6 block=128 mem=15 timeout=993 twin
-// @harness c20_clone_copy_n2 tier=quick unwind=5 block=128 mem=12 timeout=1170
-// @harness c20_clone_orig_n2 tier=quick unwind=5 block=128 mem=23 timeout=2616
-// @harness c20_clone_orig_n2_reach tier=quick unwind=5 block=128 mem=22 timeout=3176 twin
-// @harness c20_new tier=quick unwind=5 block=128 mem=2 timeout=900
-// @harness c20_new_reach tier=quick unwind=5 block=128 mem=2 timeout=900 twin
+// @harness c20_unite_n3 tier=quick unwind=6 block=128 mem=19 timeout=3331
+// @harness c20_unite_n3_reach tier=quick unwind=6 block=128 mem=19 timeout=1242 twin
+// @harness c20_clone_copy_n2 tier=quick unwind=5 block=128 mem=14 timeout=1463
+// @harness c20_clone_orig_n2 tier=quick unwind=5 block=128 mem=30 timeout=3271
+// @harness c20_clone_orig_n2_reach tier=quick unwind=5 block=128 mem=29 timeout=3600 twin
+// @harness c20_new tier=quick unwind=5 block=128 mem=8 timeout=1200
+// @harness c20_new_reach tier=quick unwind=5 block=128 mem=8 timeout=1200 twin
 // @harness c20_clone_copy_n3 tier=thorough unwind=6 block=128 mem=44 timeout=3600
 // @harness c20_clone_orig_n3 tier=thorough unwind=6 block=128 mem=44 timeout=3600
 // @harness c20_find_n4 tier=thorough unwind=7 block=128 mem=44 timeout=3600 stretch
